@@ -17,7 +17,15 @@ import (
 )
 
 func init() {
-	register("C13", func(cfg *Config) *Report { return runProgs(cfg, "C13") })
+	register("C13", func(cfg *Config) *Report {
+		if cfg.Mode == "unrolled" {
+			return runUnrolled(cfg)
+		}
+		if cfg.Mode == "concato" {
+			return runConcatoModes(cfg)
+		}
+		return runProgs(cfg, "C13")
+	})
 	register("C19", func(cfg *Config) *Report { return runProgs(cfg, "C19") })
 }
 
